@@ -75,7 +75,10 @@ func (s *scope) callFacts(pr *proof, a Lin, call *ssa.Call, idx int) {
 				pr.add(eq(a, l)...) // bytes.Buffer.Write always writes len(p)
 			}
 		}
-	case "(*bytes.Buffer).Len", "(*bytes.Reader).Len", "(*container/list.List).Len":
+	case "(*bytes.Buffer).Len":
+		pr.add(geC(a, 0))
+		s.bufLenRel(pr, a, call)
+	case "(*bytes.Reader).Len", "(*container/list.List).Len":
 		pr.add(geC(a, 0))
 	case "io.ReadFull":
 		if isResult(idx, 0, nres) {
@@ -181,7 +184,8 @@ func (s *scope) callLenFacts(pr *proof, a Lin, call *ssa.Call, idx int) {
 		}
 	case "crypto/sha256.Sum256":
 	case "(*bytes.Buffer).Bytes":
-		// len(Bytes()) == Len(): expressed through a shared atom per buffer object is not attempted
+		// len(Bytes()) == Len() of the same buffer state
+		s.bufLenRel(pr, a, call)
 	case "(*bytes.Buffer).Next":
 		if l := s.lin(cm.Args[1], pr); true {
 			pr.add(le(a, l))
@@ -296,3 +300,79 @@ func (s *scope) inlineCall(pr *proof, a Lin, call *ssa.Call, callee *ssa.Functio
 // unconstrained except for the contracts of exported I/O methods (none needed
 // today); requires-side obligations are proved at call sites instead.
 func (b *Bounds) paramLenContract(s *scope, pr *proof, a Lin, q *ssa.Parameter) {}
+
+// bufLenRel relates the buffer length observed by `call` (Len() or
+// len(Bytes())) to the closest earlier observation of the same bytes.Buffer
+// in the same basic block, when only appends (Write/WriteByte/WriteString, which
+// always append all of their argument) and buffer-unrelated instructions lie
+// in between: a = earlier + appended.  Any other call in between ends the
+// search (it could change the buffer through an alias).
+func (s *scope) bufLenRel(pr *proof, a Lin, call *ssa.Call) {
+	recv, _, _ := recvOf(call)
+	if recv == nil {
+		return
+	}
+	key := objKey(recv)
+	fk, hasFK := FieldKey{}, false
+	if k, _, ok := fieldLoad(recv); ok {
+		fk, hasFK = k, true
+	}
+	blk := call.Block()
+	pos := -1
+	for i, in := range blk.Instrs {
+		if in == ssa.Instruction(call) {
+			pos = i
+		}
+	}
+	delta := linConst(0)
+	for i := pos - 1; i >= 0; i-- {
+		switch x := blk.Instrs[i].(type) {
+		case *ssa.Store:
+			if k, ok := fieldAddrKey(x.Addr); ok && hasFK && k == fk {
+				return // the field that holds the buffer is reassigned
+			}
+		case *ssa.Call:
+			if _, isB := x.Common().Value.(*ssa.Builtin); isB {
+				continue
+			}
+			r, m, args := recvOf(x)
+			if r == nil || objKey(r) != key || !isNamedType(r.Type(), "bytes", "Buffer") {
+				id := s.b.p.CalleeID(x.Common())
+				if pureStd[id] {
+					continue
+				}
+				return
+			}
+			switch m {
+			case "Len":
+				pr.add(eq(a, s.lin(x, pr).Add(delta))...)
+				return
+			case "Bytes":
+				if l, ok := s.lenLin(x, pr); ok {
+					pr.add(eq(a, l.Add(delta))...)
+				}
+				return
+			case "Write", "WriteString":
+				l, ok := s.lenLin(args[0], pr)
+				if !ok {
+					return
+				}
+				delta = delta.Add(l)
+			case "WriteByte":
+				delta = delta.Add(linConst(1))
+			default:
+				return
+			}
+		case ssa.CallInstruction:
+			return // go / defer
+		}
+	}
+}
+
+// pureStd: standard-library functions that cannot reach a caller's bytes.Buffer.
+var pureStd = map[string]bool{
+	"bytes.Index": true, "bytes.IndexByte": true, "bytes.Equal": true, "bytes.HasPrefix": true, "bytes.Contains": true,
+	"crypto/hmac.Equal": true, "crypto/subtle.ConstantTimeCompare": true, "errors.New": true,
+	"(encoding/binary.bigEndian).Uint16": true, "(encoding/binary.bigEndian).Uint32": true, "(encoding/binary.bigEndian).Uint64": true,
+	"(encoding/binary.bigEndian).PutUint16": true, "(encoding/binary.bigEndian).PutUint32": true, "(encoding/binary.bigEndian).PutUint64": true,
+}
